@@ -1383,6 +1383,11 @@ class Interp:
             return list(v)
         if isinstance(v, self.B.DictView):
             return v.materialize()
+        if isinstance(v, Extern):
+            ev = getattr(self.reg, "extern_values", None) or {}
+            if v.name in ev:
+                # an outside object with an assumed value (e.g. an enum class whose members are listed by the contract module)
+                return self.iterate_all(ev[v.name](self), lazy_exc)
         if isinstance(v, SymSeq):
             raise OutOfSubset(f"materialising symbolic sequence {v.name}")
         if isinstance(v, VObj):
